@@ -24,6 +24,7 @@ import (
 	"mosn.io/mosn/pkg/protocol/xprotocol"
 	"mosn.io/mosn/pkg/protocol/xprotocol/bolt"
 	httpstream "mosn.io/mosn/pkg/stream/http"
+	h2stream "mosn.io/mosn/pkg/stream/http2"
 	xstream "mosn.io/mosn/pkg/stream/xprotocol"
 	"mosn.io/mosn/pkg/types"
 	"mosn.io/mosn/pkg/upstream/cluster"
@@ -76,20 +77,24 @@ type upConn struct {
 	remote string
 	got    int64 // bytes received
 	eof    int32 // the peer (MOSN) closed / reset
+	h2     *h2pConn // kind h2p: the HTTP/2 side of this connection (h2p.go)
 }
 
 type upstream struct {
 	ln    net.Listener
 	mu    sync.Mutex
 	conns []*upConn
+	serve func(uc *upConn) // what the upstream does with an accepted connection (nil: swallow the bytes)
 }
 
-func newUpstream() *upstream {
+func newUpstream() *upstream { return newUpstreamWith(nil) }
+
+func newUpstreamWith(serve func(uc *upConn)) *upstream {
 	ln, err := net.Listen("tcp", "127.0.0.1:0")
 	if err != nil {
 		panic(err)
 	}
-	u := &upstream{ln: ln}
+	u := &upstream{ln: ln, serve: serve}
 	go func() {
 		for {
 			c, err := ln.Accept()
@@ -100,6 +105,10 @@ func newUpstream() *upstream {
 			u.mu.Lock()
 			u.conns = append(u.conns, uc)
 			u.mu.Unlock()
+			if u.serve != nil {
+				go u.serve(uc)
+				continue
+			}
 			go func() {
 				buf := make([]byte, 4096)
 				for {
@@ -224,6 +233,7 @@ func (m *mconn) OnEvent(e api.ConnectionEvent) {
 
 type streamRec struct {
 	conn     int
+	h2id     uint32 // kind h2p: the HTTP/2 stream id the upstream saw for this request
 	sender   types.StreamSender
 	mu       sync.Mutex
 	recv     int
@@ -279,13 +289,36 @@ type world struct {
 	proto          api.XProtocol
 	concurrent     bool
 	pre            []*mconn // concurrent phase: records made at creation (same order as created)
+	oneways        int      // one-way requests sent
+	gauge0         gaugeSet // the gauges when the world was made (a fresh cluster and host: all zero)
+}
+
+// gaugeSet: the upstream request_active / connection_active gauges of the host and of the cluster.
+type gaugeSet struct{ reqHost, reqCluster, connHost, connCluster int64 }
+
+func (w *world) gaugesRaw() gaugeSet {
+	hs, cs := w.host.HostStats(), w.host.ClusterInfo().Stats()
+	return gaugeSet{hs.UpstreamRequestActive.Count(), cs.UpstreamRequestActive.Count(),
+		hs.UpstreamConnectionActive.Count(), cs.UpstreamConnectionActive.Count()}
+}
+
+// gauges: movement since the world was made.
+func (w *world) gauges() gaugeSet {
+	g := w.gaugesRaw()
+	return gaugeSet{g.reqHost - w.gauge0.reqHost, g.reqCluster - w.gauge0.reqCluster,
+		g.connHost - w.gauge0.connHost, g.connCluster - w.gauge0.connCluster}
 }
 
 var clusterSeq int64
 
 func newWorld(kind string, maxConn, maxReq uint32) *world {
 	register()
-	w := &world{kind: kind, maxConn: maxConn, maxReq: maxReq, up: newUpstream(), dead: deadAddr}
+	w := &world{kind: kind, maxConn: maxConn, maxReq: maxReq, dead: deadAddr}
+	if kind == "h2" {
+		w.up = newUpstreamWith(h2pServe)
+	} else {
+		w.up = newUpstream()
+	}
 	addr := w.up.ln.Addr().String()
 	name := fmt.Sprintf("c09-%d", atomic.AddInt64(&clusterSeq, 1))
 	cc := v2.Cluster{
@@ -300,6 +333,7 @@ func newWorld(kind string, maxConn, maxReq uint32) *world {
 	info := cluster.NewCluster(cc).Snapshot().ClusterInfo()
 	real := cluster.NewSimpleHost(cc.Hosts[0], info)
 	w.host = &recHost{Host: real, w: w}
+	w.gauge0 = w.gaugesRaw()
 	ctx := variable.NewVariableContext(context.Background())
 	switch kind {
 	case "h1":
@@ -311,6 +345,8 @@ func newWorld(kind string, maxConn, maxReq uint32) *world {
 	case "mx":
 		w.pool = xstream.NewConnPool(ctx, &mxCodec{}, w.host)
 		w.proto = (&bolt.XCodec{}).NewXProtocol(ctx)
+	case "h2":
+		w.pool = h2stream.NewConnPool(ctx, w.host)
 	default:
 		panic("kind")
 	}
